@@ -353,6 +353,15 @@ func runC18Struct(c *Ctx) {
 				return 0
 			}
 			it.answer = func(key string, isBool bool) (k4val, bool) {
+				if isBool && strings.Contains(key, ").IsEmpty(") {
+					// emptiness agrees with the modelled counts
+					switch which(key) {
+					case 1:
+						return k4val{kind: 1, b: n1 == 0}, true
+					case 2:
+						return k4val{kind: 1, b: n2 == 0}, true
+					}
+				}
 				if isBool {
 					return k4val{kind: 1, b: true}, true // adversarial: every other test says "equal"
 				}
